@@ -351,7 +351,7 @@ def _concurrent_view_case(case):
       else:
         test.measurements.d[op[1]] = op[2]
     stop.set()
-    box['watcher_done'].wait(30)
+    box['watcher_done'].wait(0.5)
     # quiescent: nobody renders, nobody assigns
     view = ps.as_base_types()['measurements']
     for n, mo in ps.measurements.items():
